@@ -19,13 +19,13 @@ def cfg(**kw):
 CONFIGS = {
     # name: (quick constants, thorough constants)
     "MC_Breach": (cfg(MaxBlocks=3, MaxOps=3, Acts='{"Register", "Add", "Mine", "Get", "BadSig"}'),
-                  cfg(MaxBlocks=3, MaxOps=4, Disputes="{10, 20}", Acts='{"Register", "Add", "Mine", "Get", "BadSig"}')),
+                  cfg(MaxBlocks=3, MaxOps=4, Acts='{"Register", "Add", "Mine", "Get", "BadSig"}')),
     "MC_Reorg": (cfg(Users="{1}", Variants="{1}", MaxBlocks=6, MaxOps=2, MaxDisc=2, Acts='{"Register", "Add", "Mine", "Disconnect"}'),
-                 cfg(Users="{1}", Variants="{1, 2}", MaxBlocks=7, MaxOps=2, MaxDisc=3, Acts='{"Register", "Add", "Mine", "Disconnect"}')),
+                 cfg(Users="{1}", Variants="{1}", MaxBlocks=7, MaxOps=2, MaxDisc=3, Acts='{"Register", "Add", "Mine", "Disconnect"}')),
     "MC_Expiry": (cfg(SUB_D=2, SUB_G=1, Variants="{1}", MaxBlocks=4, MaxOps=3, MaxDisc=1,
                       Acts='{"Register", "Add", "Mine", "Disconnect", "Sub"}'),
-                  cfg(SUB_D=2, SUB_G=1, Variants="{1}", MaxBlocks=5, MaxOps=5, MaxDisc=1,
-                      Acts='{"Register", "Add", "Mine", "Disconnect", "Sub", "Get"}')),
+                  cfg(SUB_D=2, SUB_G=1, Variants="{1}", MaxBlocks=5, MaxOps=4, MaxDisc=1,
+                      Acts='{"Register", "Add", "Mine", "Disconnect", "Sub"}')),
     "MC_Expiry0": (cfg(SUB_D=0, SUB_G=0, SUB_S=1, Variants="{1}", MaxBlocks=3, MaxOps=4, Acts='{"Register", "Add", "Mine", "Sub"}'),
                    cfg(SUB_D=1, SUB_G=0, SUB_S=1, Variants="{1}", MaxBlocks=4, MaxOps=5, Acts='{"Register", "Add", "Mine", "Sub"}')),
     "MC_Slots": (cfg(SUB_S=3, Garbled="{1, 3, 5}", MaxBlocks=2, MaxOps=4, Acts='{"Register", "Add", "Mine", "Sub"}'),
@@ -65,6 +65,119 @@ def design_stats(pid, tier, workers=8):
                                "invariants": ["NoViolation (all TowerProps monitors on every step)", "Structure", "Conservation",
                                               "TrackersJustified", "ReorgedSane"]})
     return out
+
+
+# ---------------------------------------------------------------------------------------------------
+# spec -> implementation: behaviours of the model turned into scripts for tower_rig
+
+REPLAY_CONFIGS = {
+    # (constants for simulation, real configuration the script runs under)
+    "C01": cfg(MaxBlocks=4, MaxOps=5, Disputes="{10, 20}", Acts='{"Register", "Add", "Mine", "Get", "BadSig"}', SUB_D=30, Emit="TRUE"),
+    "C02": cfg(MaxBlocks=4, MaxOps=5, Disputes="{10, 20}", Acts='{"Register", "Add", "Mine", "Get"}', SUB_D=3, SUB_G=1, Emit="TRUE"),
+    "C06": cfg(MaxBlocks=2, MaxOps=7, SUB_D=2, Acts='{"Register", "Add", "Mine", "Get", "Sub", "BadSig"}', Emit="TRUE"),
+    "C07": cfg(MaxBlocks=3, MaxOps=7, SUB_S=3, Garbled="{1, 3, 5}", Acts='{"Register", "Add", "Mine", "Sub"}', Emit="TRUE"),
+    "C08": cfg(MaxBlocks=3, MaxOps=6, SUB_S=3, Garbled="{1, 3}", Acts='{"Register", "Add", "Mine", "Get", "Sub"}', Emit="TRUE"),
+    "C09": cfg(MaxBlocks=6, MaxOps=6, SUB_D=2, SUB_G=1, Variants="{1}", Acts='{"Register", "Add", "Mine", "Sub", "Get"}', Emit="TRUE"),
+}
+
+
+def _blob(l, b):
+    """model blob -> tower_rig blob spec (slots are preserved: 1 -> 300 bytes, 2 -> 2049, 3 -> 4097)"""
+    if b["key"] == l and b["pay"] > 0:
+        v = b["pay"] - l
+        return {"kind": "valid", "d": l, "p": l + (3 if v == 2 else 1)}
+    if b["key"] > 0:
+        return {"kind": "valid", "d": b["key"], "p": b["key"] + 1}      # encrypted under another dispute's id
+    slots = (b["size"] + 1) // 2
+    return {"kind": "garbled", "size": {1: 300, 2: 2049, 3: 4097}.get(slots, 300)}
+
+
+def _verdicts(orc):
+    ops = []
+    for tx, v in orc:
+        real = tx if tx % 10 != 2 else tx + 1      # penalty variant 2 of the model is the two-slot variant 3 of the rig
+        if v == "mem":
+            ops.append({"op": "mempool_add", "tx": real})
+        elif v in ("ok", "rej", "res"):
+            ops.append({"op": "verdict", "tx": real, "v": v})
+    return ops
+
+
+def behaviour_to_scenario(hist, consts, name):
+    ops = [{"op": "boot"}, {"op": "poll"}]
+    for h in hist:
+        o = h["op"]
+        if o == "register":
+            ops.append({"op": "register", "u": h["u"]})
+        elif o == "add":
+            ops += _verdicts(h.get("orc", []))
+            who = h["who"]
+            ops.append({"op": "add", "u": who if who else 1, "l": h["l"], "blob": _blob(h["l"], h["blob"]), "tsd": h["ver"],
+                        "sig": "valid" if who else "unregistered"})
+        elif o == "get":
+            ops.append({"op": "get", "u": h["who"], "l": h["l"], "sig": "valid"})
+        elif o == "sub":
+            ops.append({"op": "sub", "u": h["who"], "sig": "valid"})
+        elif o == "mine":
+            ops += _verdicts(h.get("orc", []))
+            keys = [k if k % 10 != 2 else k + 1 for k in h["keys"]]
+            ops.append({"op": "mine", "txs": keys, "poll": True})
+        elif o == "disconnect":
+            return None
+    real_cfg = {"S": int(consts["SUB_S"]), "D": int(consts["SUB_D"]), "G": int(consts["SUB_G"]), "cache": 6, "idx": 100, "h0": 101}
+    return {"name": name, "cfg": real_cfg, "ops": ops}
+
+
+def replay_scenarios(pid, tier, seed_):
+    """TLC -simulate on MC_Tower prints one REPLAY line per behaviour that reaches the bound; each becomes a scenario."""
+    import json as _json
+    from common import unwrap_print
+    if pid not in REPLAY_CONFIGS:
+        return [], {}
+    consts = REPLAY_CONFIGS[pid]
+    n = 40 if tier == "quick" else 600
+    depth = int(consts["MaxBlocks"]) + int(consts["MaxOps"]) + 1
+    wd = os.path.join("/verif/work", pid, "mcreplay")
+    os.makedirs(wd, exist_ok=True)
+    hists = []
+
+    def on_line(line):
+        tag, val = unwrap_print(line)
+        if tag == "REPLAY" and val and val[1] is not None:
+            hists.append(val[1])
+
+    r = tlc("MC_Tower", "MC_Tower.cfg", wd, workers=1, consts=consts, timeout=900, simulate="num=%d" % (n * 6), want_lines=on_line,
+            env_extra={"JAVA_OPTS": ""})
+    # distinct behaviours only; the ones in which more happens first (accepted appointments, breaches, renewals, refusals)
+    def score(h):
+        sc_ = 0
+        accepted = set()
+        for x in h:
+            if x["op"] == "add" and x.get("code") == "ok":
+                sc_ += 3
+                accepted.add(x["l"])
+            elif x["op"] == "add":
+                sc_ += 1
+            elif x["op"] == "register":
+                sc_ += 1
+            elif x["op"] == "mine":
+                sc_ += 4 * len([k for k in x["keys"] if k in accepted]) + (1 if x.get("orc") else 0)
+            elif x.get("code") in ("ok",):
+                sc_ += 1
+        return -sc_
+    hists.sort(key=score)
+    seen, scs = set(), []
+    for h in hists:
+        key = _json.dumps(h, sort_keys=True)
+        if key in seen:
+            continue
+        seen.add(key)
+        sc = behaviour_to_scenario(h, consts, "tlc-%s-%d" % (pid.lower(), len(scs)))
+        if sc:
+            scs.append(sc)
+        if len(scs) >= n:
+            break
+    return scs, {"behaviours_emitted_by_tlc": len(hists), "distinct_replayed": len(scs), "constants": consts}
 
 
 if __name__ == "__main__":
